@@ -14,7 +14,7 @@ import semlib
 import vlib
 
 PID = "C01"
-CORE = ["ints", "bool", "float", "char", "loops", "calls", "recfn", "ret", "enum", "opt", "rec", "list", "str", "fstr", "generic", "filtermap", "copymut", "hostopt", "shadow", "gconst", "kconst"]
+CORE = ["ints", "bool", "float", "char", "loops", "calls", "recfn", "ret", "enum", "opt", "rec", "list", "str", "fstr", "generic", "filtermap", "copymut", "hostopt", "shadow", "gconst", "kconst", "mods"]
 
 
 def run(tier):
